@@ -43,6 +43,12 @@ TrCSetEval == Is("MEval") /\ (\E keep \in BOOLEAN : (keep => NoC09) /\ CSetEval(
 TrStaleBuildEval == Is("MEval") /\ "C09" \notin Strict /\ StaleBuildEval(Ev.ok) /\ Consume
 TrStaleCSetEval == Is("MEval") /\ "C09" \notin Strict /\ StaleCSetEval(Ev.ok) /\ Consume
 TrStaleTrialEval == Is("MEval") /\ "C09" \notin Strict /\ (\E dec \in Decisions : StaleTrialEval(Ev.ok, dec)) /\ Consume
+\* an update without evaluation is a behaviour while no state property is being judged, or when the
+\* cache already belongs to the new parameters (memoisation is legitimate: C10)
+SkipOk(aid) == (Strict \cap {"C02", "C04", "C09", "C10", "C05"} = {}) \/ own = aid
+TrCSetSkip == Is("MSet") /\ Ev.ok /\ SkipOk(Ev.aid) /\ CSetSkip(Ev.aid) /\ Consume
+TrTrialSetSkip == Is("MSet") /\ Ev.ok /\ SkipOk(Ev.aid) /\ (\E dec \in Decisions : TrialSetSkip(Ev.aid, dec)) /\ Consume
+TrResetSetSkip == Is("MSet") /\ Ev.ok /\ SkipOk(Ev.aid) /\ ResetSetSkip(Ev.aid) /\ Consume
 TrCSetEnd == Is("CSetEnd") /\ CSetEnd /\ Consume /\ StateGuards({"C09", "C02", "C10"})
 TrCJacDeriv ==
   /\ Is("MDeriv")
@@ -123,6 +129,7 @@ Next == \/ TrBuildStart \/ TrBuildSet \/ TrBuildEval \/ TrBuildEnd
         \/ TrFitStart \/ TrDeriv \/ TrTrialSet \/ TrEvalAfterFailedSet \/ TrTrialEval
         \/ TrResetSet \/ TrResetEval \/ TrFitEnd
         \/ TrStaleBuildEval \/ TrStaleCSetEval \/ TrStaleTrialEval
+        \/ TrCSetSkip \/ TrTrialSetSkip \/ TrResetSetSkip
         \/ TrStatDeriv \/ TrStatEval \/ TrStatsEnd \/ TrPostEval \/ TrBestFit
 Spec == Init /\ [][Next]_vars
 
